@@ -608,7 +608,7 @@ func genHistory(c *hxlib.Ctx, r *rand.Rand, pf profile, forced []opJ) {
 		ks := candidateKs(r, wd, pf)
 		main := ks[r.Intn(len(ks))]
 		for _, k := range ks {
-			if k == main || (pf.fanLast && !last) {
+			if k == main || (pf.fanLast && !last) || expired() {
 				continue
 			}
 			br := wd.crashCopy(k)
@@ -921,8 +921,16 @@ func flushQueue(c *hxlib.Ctx, shard int) {
 
 const shardSize = 120
 
+// Generation stops early (keeping what was found) when it runs far beyond its
+// normal few seconds: a broken reader may interpret payload bytes as a header and
+// allocate gigabytes per ReadBytes call (make([]byte, payloadLen)).
+var deadline time.Time
+
+func expired() bool { return !deadline.IsZero() && time.Now().After(deadline) }
+
 func gen(c *hxlib.Ctx) {
 	r := c.Rand
+	deadline = time.Now().Add(time.Duration(150*c.Scale) * time.Second)
 	genCorpus(c)
 
 	short := profile{name: "short", nOps: func(r *rand.Rand) int { return 3 + r.Intn(6) }, size: small,
@@ -953,13 +961,19 @@ func gen(c *hxlib.Ctx) {
 		}
 		t0 = time.Now()
 	}
-	for i := 0; i < c.N(34); i++ {
+	for i := 0; i < c.N(48); i++ {
+		if expired() {
+			break
+		}
 		genHistory(c, r, short, nil)
 	}
 	lap("short")
 	// crash right after Shift with a partial first record in the new segment,
 	// also after two Shifts in a row (empty middle segment)
 	for i := 0; i < c.N(12); i++ {
+		if expired() {
+			break
+		}
 		forced := []opJ{appendN(r, small(r)), {Op: "sync"}, {Op: "shift"}}
 		if i%3 == 0 {
 			forced = append(forced, opJ{Op: "shift"})
@@ -968,15 +982,24 @@ func gen(c *hxlib.Ctx) {
 		genHistory(c, r, shifty, forced)
 	}
 	for i := 0; i < c.N(12); i++ {
+		if expired() {
+			break
+		}
 		genHistory(c, r, shifty, nil)
 	}
 	lap("shift")
-	for i := 0; i < c.N(14); i++ {
+	for i := 0; i < c.N(18); i++ {
+		if expired() {
+			break
+		}
 		genHistory(c, r, long, nil)
 	}
 	lap("long")
 	// the buffer exactly full / one byte over, crash without any flush
 	for i := 0; i < c.N(4); i++ {
+		if expired() {
+			break
+		}
 		var forced []opJ
 		forced = append(forced, appendN(r, r.Intn(50)), opJ{Op: "sync"})
 		for _, n := range [][]int{{4088, 1}, {2000, 2080, 5}, {4089}, {100, 4500}, {4000, 80, 9000}}[i%5] {
@@ -987,12 +1010,18 @@ func gen(c *hxlib.Ctx) {
 	}
 	lap("bufio")
 	for i := 0; i < c.N(300); i++ {
+		if expired() {
+			break
+		}
 		genDisk(c, r)
 	}
 	lap("disk")
 	// lib/Crc32c against Go's crc32 (Castagnoli)
 	tab := crc32.MakeTable(crc32.Castagnoli)
 	for i := 0; i < c.N(120); i++ {
+		if expired() {
+			break
+		}
 		n := []int{0, 1, 2, 3, 4, 7, 8, 9, 31, 32, 33, 255, 256, 257}[r.Intn(14)]
 		if r.Intn(3) == 0 {
 			n = r.Intn(700)
@@ -1008,6 +1037,9 @@ func gen(c *hxlib.Ctx) {
 			cs.Coq = fmt.Sprintf("(CCrc %s %d)", coqLit(b), crc32.Checksum(b, tab))
 		}
 		emit(cs)
+	}
+	if expired() {
+		c.Note("generation stopped at its time budget; %d cases kept", len(queue))
 	}
 	flushQueue(c, shardSize)
 	// canaries: wrong observations the model must flag
